@@ -62,6 +62,9 @@ def run_history(chk, da, rng, hid):
             return got.shape == want.shape and np.array_equal(gm, wm) and np.array_equal(np.ma.getdata(got)[~gm], np.ma.getdata(want)[~wm])
         return np.array_equal(got, want)
 
+    import random as _random
+    wrng = _random.Random(f"C11-where-{hid}-{chk.seed}")
+
     def check_all(step):
         problems = []
         try:
@@ -101,6 +104,8 @@ def run_history(chk, da, rng, hid):
 
     for step in range(nsteps):
         op = rng.choice(["derive", "setitem", "setitem", "setitem", "ufunc-out", "compute", "keys"])
+        if not masked_mode and op == "ufunc-out" and wrng.random() < 0.5:
+            op = "ufunc-out-where"
         if masked_mode and step == 0:
             op = "derive"        # a sibling taken before the first masked assignment
         chk.count("op:" + op)
@@ -154,6 +159,11 @@ def run_history(chk, da, rng, hid):
                     da.add(x, 1, out=x)
                     mirror += 1
                     log.append("ufunc-out add(x, 1, out=x)")
+                elif op == "ufunc-out-where":
+                    t = wrng.randint(-6, 6)
+                    np.add(mirror, 10, out=mirror, where=mirror > t)
+                    da.add(x, 10, out=x, where=x > t)
+                    log.append(f"ufunc-out add(x, 10, out=x, where=x > {t})")
                 elif op == "keys":
                     import dask
                     x.__dask_keys__()
@@ -170,6 +180,54 @@ def run_history(chk, da, rng, hid):
         check_all(step)
 
 
+def key_mutation_family(chk, da):
+    """an index array used in an assignment is itself updated in place afterwards: the assignment already made must not change"""
+    import random as _random
+    rng = _random.Random(f"C11-key-mutation-{chk.seed}")
+    for it in range(400 if chk.tier == "thorough" else 60):
+        rows, cols = rng.choice([3, 4, 6]), rng.choice([2, 3])
+        a = np.arange(float(rows * cols)).reshape(rows, cols)
+        chunks = (progs.rand_chunks_for(rng, rows), progs.rand_chunks_for(rng, cols))
+        kind = rng.choice(["bool-1d-on-2d", "int-array", "bool-full", "int-array-slice"])
+        try:
+            with warnings.catch_warnings():
+                warnings.simplefilter("ignore")
+                x = da.from_array(a.copy(), chunks=chunks)
+                if kind == "bool-1d-on-2d":
+                    kn = np.array([rng.random() < 0.4 for _ in range(rows)])
+                    k = da.from_array(kn, chunks=progs.rand_chunks_for(rng, rows))
+                    x[k] = -1.0
+                    mutate = lambda: k.__setitem__(rng.randrange(rows), True)          # noqa: E731
+                elif kind == "bool-full":
+                    k = da.from_array(a % 2 == 0, chunks=chunks)
+                    x[k] = -1.0
+                    mutate = lambda: k.__setitem__((rng.randrange(rows), rng.randrange(cols)), True)   # noqa: E731
+                elif kind == "int-array":
+                    k = da.from_array(np.array([0]), chunks=1)
+                    x[k] = -5.0
+                    mutate = lambda: k.__setitem__(0, rows - 1)                          # noqa: E731
+                else:
+                    k = da.from_array(np.array([0, 1]), chunks=2)
+                    x[k, 1:] = -7.0
+                    mutate = lambda: k.__setitem__(1, rows - 1)                          # noqa: E731
+                peek = rng.random() < 0.5
+                before = x.compute(scheduler="sync") if peek else None
+                twin = x.copy().compute(scheduler="sync") if not peek else before
+                mutate()
+                after = x.compute(scheduler="sync")
+        except (NotImplementedError, ValueError, IndexError, TypeError) as e:
+            chk.count("key-mutation:unsupported:" + type(e).__name__)
+            continue
+        chk.count("key-mutation:" + kind)
+        chk.case(("key-mutation", kind, rows, cols, repr(chunks), it), nontrivial=True, sample={"kind": kind, "chunks": chunks} if it < 2 else None)
+        if not np.array_equal(twin, after):
+            chk.violation(f"updating an index array in place changed an assignment made earlier with it ({kind})",
+                          {"kind": kind, "chunks": chunks, "x_before": np.asarray(twin).tolist(), "x_after": after.tolist()},
+                          signature={"class": "other-target-changed", "via": "index-array", "kind": kind})
+        else:
+            chk.traces_validated += 1
+
+
 def run(chk: Check):
     import dask_array as da
     chk.rule = ("histories of 3-8 steps on one target array: derivations taken before later assignments (slices, transposes, elemwise, "
@@ -180,6 +238,7 @@ def run(chk: Check):
     chk.assumptions = ["collection identity is Python object identity: x[:] / x[...] / asarray(x) return x itself and therefore track it (DESIGN F9)"]
     chk.run_proofs()
     model_family(chk, da)
+    key_mutation_family(chk, da)
     n = 4000 if chk.tier == "thorough" else 400
     for hid in range(n):
         run_history(chk, da, chk.rng, hid)
